@@ -62,6 +62,10 @@ class PitRun:
         self.done_at = []
         self.vfut = []           # per entry: list of futures of validator invocations
         self.vnew = []
+        self.pa_entries = set()  # Interests expressed with the library's own pass_all validator (appv2)
+        self.pa_called = []      # ... for which that validator was called during the current stimulus
+        self._orig_pass_all = None
+        self.pa_accounted = set()
         self.bg = []
         self.wires = {}
         self.nsent = 0
@@ -84,6 +88,9 @@ class PitRun:
                 self.bg.append('express-without-validator-left-something')
 
     def close(self):
+        if self._orig_pass_all is not None:
+            from ndn import appv2
+            appv2.pass_all = self._orig_pass_all
         for c in self.coros.values():
             c.close()
         self.app._verif_restore_log()
@@ -156,9 +163,37 @@ class PitRun:
         return name
 
     def validator_for(self, e):
+        if e in self.pa_entries:
+            return self.pass_all_for(e)
         async def hv(*args):
             return await self.validate(e, args)
         return hv
+
+    def take_pa_called(self):
+        """Entries whose accept-everything validator gave its verdict during the current stimulus: it was called, or the
+        Interest got the Data without the call (code that knows the library's pass_all need not call it)."""
+        c, self.pa_called = self.pa_called, []
+        for e in sorted(self.pa_entries):
+            t = self.tasks[e - 1] if e - 1 < len(self.tasks) else None
+            if e not in self.pa_accounted and e not in c and t is not None and t.done() and not t.cancelled() \
+                    and t.exception() is None:
+                c.append(e)
+        self.pa_accounted.update(c)
+        return c
+
+    def pass_all_for(self, e):
+        """The library's own accept-everything validator, `appv2.pass_all`, for entry e: the module attribute is replaced by
+        a function that notes the call and answers PASS at once, so code that singles the validator out by identity
+        (`entry.validator is pass_all`) takes that path for the entry expressed most recently with it."""
+        from ndn import appv2
+
+        async def pass_all(_name, _sig, _context):
+            self.pa_called.append(e)
+            return ndn_types.ValidResult.PASS
+        if self._orig_pass_all is None:
+            self._orig_pass_all = appv2.pass_all
+        appv2.pass_all = pass_all
+        return pass_all
 
     async def validate(self, e, args):
         """body of every harness Data validator: checks that it was handed the packet that is being delivered, then
@@ -312,6 +347,8 @@ class PitRun:
                 sp.can_be_prefix, sp.lifetime, sp.nonce, sp.must_be_fresh = bool(t['cbp']), t['life'] * TICK_MS, 0x01020304, (e % 8 == 0)
                 kw = dict(interest_param=sp)
             self.vfut.append([])
+            if ev.get('pa') and self.front == 'v2':
+                self.pa_entries.add(e)
             # the name in every accepted representation (component list, URI text, encoded Name, tuple, and buffers which
             # the caller overwrites as soon as the call has returned: a pending Interest must not alias them)
             scratch = None
@@ -502,6 +539,25 @@ def split_data_fire(ev):
             {'a': 'Fire', 'post': ev['post']}]
 
 
+def split_delivery(ev, pa_called):
+    """A Data delivery during which validators that answer at once (the library's pass_all) were called, as trace events:
+    RecvData (hidden), ValFinish(e, PASS) for each of them (hidden but the last) [, Fire for the composite stimulus] -
+    the observation belongs to the last event."""
+    fire = ev['a'] == 'RecvDataFire'
+    # a validator call for an Interest whose cancellation is in flight is tolerated (the statement is silent): no event
+    pa_called = [e for e in pa_called if e not in ev.get('x', [])]
+    if not pa_called:
+        return split_data_fire(ev) if fire else [ev]
+    out = [{'a': 'RecvData', 'd': ev['d'], 'env': ev['env'], 'x': ev.get('x', []), 'hidden': True, 'post': ev['post']}]
+    if fire:
+        # the timer handles run in the iteration of the packet, the validation tasks in the next one
+        out.append({'a': 'Fire', 'hidden': True, 'post': ev['post']})
+    for e in pa_called:
+        out.append({'a': 'ValFinish', 'e': e, 'v': 'PASS', 'hidden': True, 'post': ev['post']})
+    del out[-1]['hidden']
+    return out
+
+
 def run_schedule(front, schedule):
     """schedule: list of events (dicts with 'a' + args). Returns the list of events with 'post'."""
     r = PitRun(front)
@@ -511,8 +567,8 @@ def run_schedule(front, schedule):
             r.apply(ev)
             ev2 = dict(ev)
             ev2['post'] = r.post()
-            if ev['a'] == 'RecvDataFire':
-                out.extend(split_data_fire(ev2))
+            if ev['a'] in ('RecvDataFire', 'RecvData'):
+                out.extend(split_delivery(ev2, r.take_pa_called()))
             else:
                 out.append(ev2)
     finally:
